@@ -231,6 +231,28 @@ theorem C03_handshake_record_refused_while_ccs_expected (hf : f.sound = true) (h
     Conn.onHandshakeRecord k f W c data = Conn.failLocal k c k.aUnexpected := by
   simp [Conn.onHandshakeRecord, hr, he]
 
+/-- A ChangeCipherSpec record that arrives while none is expected — in particular one injected
+in transit anywhere before the peer's own — ends the handshake with `unexpected_message`, in every
+connection state and whatever the record contains: it is never dropped and read over.  (The flag
+`ccsNeedsExpect` is regenerated from the guard AND its action: `!expectChangeCipherSpec` must answer
+with the fatal alert, see `flagsOf`.) -/
+theorem C03_unexpected_ccs_refused (hr : f.ccsNeedsExpect = true) (hh : f.ccsNeedsEmptyHand = true)
+    (c : Conn P) (data : Bytes) (he : c.hs.expectCCS = false) :
+    (Conn.onCCSRecord k f c data).status = .failed s!"local:{k.aUnexpected}" ∨
+    (Conn.onCCSRecord k f c data).status = .failed s!"local:{k.aDecode}" := by
+  unfold Conn.onCCSRecord
+  by_cases hd : data ≠ [1]
+  · right; simp [hd, Conn.failLocal]
+  · left
+    by_cases hn : c.hand ≠ []
+    · simp [hd, hh, hn, Conn.failLocal]
+    · simp [hd, hr, hh, hn, he, Conn.failLocal]
+
+-- the hypotheses hold for the flags extracted from this tree (both stacks refuse an unexpected
+-- ChangeCipherSpec with the fatal alert; the empty-buffer guard is the stream stack's)
+example : tlcpFlags.ccsNeedsExpect = true ∧ tlcpFlags.ccsNeedsEmptyHand = true ∧ dtlcpFlags.ccsNeedsExpect = true := by
+  decide
+
 /-- The flag is necessary (the model mirrors the defect branch): when a handshake record switches
 the cipher state by itself, the attacker who removes the client's ChangeCipherSpec record — and
 nothing else — is not detected: both endpoints complete although the server accepted no
